@@ -17,7 +17,7 @@ import (
 	"verifharness/internal/src"
 )
 
-var ops = []string{"delay", "timer", "interval", "intervalinitial", "rangeinterval", "repeatinterval", "timeout", "timeout-slow", "throttletime", "throttletime-2subs", "delayeach", "sampletime", "buffertime", "buffertimeorcount", "stop"}
+var ops = []string{"delay", "timer", "interval", "intervalinitial", "rangeinterval", "repeatinterval", "timeout", "timeout-slow", "throttletime", "throttletime-2subs", "timed-2subs", "delayeach", "sampletime", "buffertime", "buffertimeorcount", "stop"}
 
 func plan(tier string, seed int64) []driver.Case {
 	reps := 40
@@ -409,6 +409,67 @@ func runCase(c driver.Case) driver.Result {
 				prev = &ev[i]
 			}
 			res.Events += int64(len(ev))
+		}
+	case "timed-2subs":
+		// one time-driven pipeline value (BufferWithTime / SampleTime) over a hot source, subscribed a second time
+		// half a period later: each subscription has a time base of its own - nothing is delivered to a
+		// subscriber earlier than one period after ITS subscription - and the end of the first subscription
+		// (its context is cancelled) does not end the second one
+		subj := ro.NewPublishSubject[int]()
+		which := []string{"BufferWithTime", "SampleTime"}[rng.Intn(2)]
+		var subscribe func(ctx context.Context, r *rec.Rec) ro.Subscription
+		if which == "BufferWithTime" {
+			o := ro.BufferWithTime[int](d)(subj)
+			subscribe = func(ctx context.Context, r *rec.Rec) ro.Subscription { return o.SubscribeWithContext(ctx, rec.Raw[[]int](r)) }
+		} else {
+			o := ro.SampleTime[int](d)(subj)
+			subscribe = func(ctx context.Context, r *rec.Rec) ro.Subscription { return o.SubscribeWithContext(ctx, rec.Raw[int](r)) }
+		}
+		ctxA, cancelA := context.WithCancel(context.Background())
+		defer cancelA()
+		rA, rB := rec.New("A"), rec.New("B")
+		tsA := rec.Mono()
+		subA := subscribe(ctxA, rA)
+		time.Sleep(d / 2)
+		tsB := rec.Mono()
+		subB := subscribe(context.Background(), rB)
+		total, cancelAt := 14, 6
+		for i := 0; i < total; i++ {
+			time.Sleep(d / 4)
+			if i == cancelAt {
+				cancelA()
+			}
+			subj.Next(i)
+		}
+		tComplete := rec.Mono()
+		subj.Complete()
+		waitTerminal(rB, 3*time.Second)
+		subA.Unsubscribe()
+		subB.Unsubscribe()
+		for _, x := range []struct {
+			name string
+			r    *rec.Rec
+			ts   int64
+		}{{"A", rA, tsA}, {"B", rB, tsB}} {
+			for _, e := range x.r.Events() {
+				if e.Kind == rec.Next {
+					if e.T-x.ts < int64(d) {
+						return fail("second-subscription-shares-the-time-base", fmt.Sprintf("%s subscribed twice (B %v after A): subscriber %s got %s %s after its own subscription, before one period had passed", which, d/2, x.name, e.Val, ms(e.T-x.ts)))
+					}
+					break
+				}
+			}
+			res.Events += int64(x.r.Len())
+		}
+		// B lives until the source completes (which of the last values it still gets is the concurrent
+		// flush's business, C05): its terminal is the source's completion, not an earlier one
+		if rB.Terminal() != rec.Complete {
+			return fail("second-subscription-ended-with-the-first", fmt.Sprintf("%s subscribed twice: subscriber B ended with %v instead of the source's completion; trace [%s]", which, rB.Terminal(), rB.TraceString()))
+		}
+		for _, e := range rB.Events() {
+			if e.Kind == rec.Complete && e.T < tComplete {
+				return fail("second-subscription-ended-with-the-first", fmt.Sprintf("%s subscribed twice, the context of subscription A cancelled before value %d: subscriber B was completed %s before the source completed; trace [%s]", which, cancelAt, ms(tComplete-e.T), rB.TraceString()))
+			}
 		}
 	case "delayeach":
 		// every value is held for the duration before it is forwarded - also when the subscription
